@@ -155,7 +155,7 @@ class Renderer:
         if joinable:
             self.pending = line
         else:
-            if self.st.on('comments', 0.1):
+            if not text.upper().startswith('DATA') and self.st.on('comments', 0.1):
                 line += " ' trailing"
             self.lines.append(line)
 
